@@ -109,6 +109,66 @@ def rule_spellings(ctx):
                 )
 
 
+def _reference_tokenizable(description, spellings, token_text):
+    """Reference for the rewriting before tokenizing: every ellipsis spelling OUTSIDE quoted text becomes the one-token
+    spelling; quoted text (either quote kind, backslash escapes as in Python literals) is kept verbatim."""
+    result = []
+    position = 0
+    while position < len(description):
+        character = description[position]
+        if character in "\"'":
+            end = position + 1
+            while end < len(description) and description[end] != character:
+                end += 2 if description[end] == "\\" else 1
+            end = min(end + 1, len(description))
+            result.append(description[position:end])
+            position = end
+            continue
+        for spelling in spellings:
+            if description.startswith(spelling, position):
+                result.append(token_text)
+                position += len(spelling)
+                break
+        else:
+            result.append(character)
+            position += 1
+    return "".join(result)
+
+
+def rule_ellipsis_rewriting(ctx):
+    """O1.1b: the text handed to the tokenizer - _tokenizable_description is interpreted (its regular expression is a
+    constant of the module, evaluated by the interpreter's regex support) on descriptions whose quoted limits contain
+    ellipsis characters, the other quote kind and ESCAPED quotes, and compared with the reference scanner."""
+    model = ctx.model
+    ctx.res.minimum("O1.1b", 1)
+    if "cutplace.ranges._tokenizable_description" not in model.functions:
+        raise AnalysisError("cutplace.ranges._tokenizable_description not found")
+    interp0 = Interp(model, __import__("cpsa.absint", fromlist=["Chooser"]).Chooser())
+    token_text = interp0.global_lookup(model.module("cutplace.ranges"), "_ELLIPSIS_TOKEN_TEXT")
+    ellipsis = interp0.global_lookup(model.module("cutplace.ranges"), "ELLIPSIS")
+    if not isinstance(token_text, str) or not isinstance(ellipsis, str):
+        raise AnalysisError("ELLIPSIS / _ELLIPSIS_TOKEN_TEXT do not fold to texts")
+    spellings = ["...", ellipsis]
+    quoted = ['"a"', "'a'", '"."', "'...'", '"' + ellipsis + '"', '"\\""', "'\\''", '"\\\\"', '"\'"', "'\"'", '"\\x41"', '":"']
+    separators = ["...", ellipsis, ":"]
+    pool = []
+    for left in quoted:
+        for separator in separators:
+            pool.append(left + separator + '"z"')
+            pool.append("1" + separator + left)
+            pool.append(left + ", " + '"a"' + separator + '"z"')
+    pool += ["1...2", "1" + ellipsis + "2", "...5", "5...", "1...2, 4" + ellipsis + "6", "tab...'a'"]
+
+    def cell(ch):
+        description = ch.choose("description", pool)
+        interp, outcome = run_call(model, ch, "cutplace.ranges._tokenizable_description", [description])
+        actual = outcome[1] if outcome[0] == "return" else "raise " + exc_name(outcome[1])
+        return (ascii(description), actual, _reference_tokenizable(description, spellings, token_text))
+
+    decide(ctx, "O1.1b", "ellipsis spellings outside quoted text become one token", "cutplace.ranges._tokenizable_description", cell,
+           min_cells=len(pool))
+
+
 # ------------------------------------------------------------------------------- O1.3
 def _membership_oracle(interp, items, probe):
     """accepted iff inside some item (limits inclusive, None = unbounded); evaluated on the same order store."""
@@ -825,4 +885,4 @@ def _dispatch_rule(ctx):
 
 from .common import rule_module_state  # noqa: E402
 
-RULES = [rule_spellings, rule_membership, rule_constructors, rule_limit_spellings, rule_module_state]
+RULES = [rule_spellings, rule_ellipsis_rewriting, rule_membership, rule_constructors, rule_limit_spellings, rule_module_state]
